@@ -1,10 +1,12 @@
 #!/venv/bin/python
-"""tools/seed_store.py PROP IDX 'detected: <text>' [--note text]   -- copy /tmp/seed-PROP-out/{patchI.diff,demoI.py} into
-/verif/seeded/PROP-I/ with meta.json (which property, what it needs to manifest, what was run)."""
+"""tools/seed_store.py PROP IDX 'detected: <text>' [--from seed2 --as N]   -- copy /tmp/<from>-PROP-out/{patchI.diff,demoI.py}
+into /verif/seeded/PROP-N/ (N defaults to I) with meta.json (which property, what it needs to manifest, what was run)."""
 import json, os, re, shutil, subprocess, sys
 prop, idx, detected = sys.argv[1], int(sys.argv[2]), sys.argv[3]
-src = f'/tmp/seed-{prop}-out'
-d = f'/verif/seeded/{prop}-{idx}'
+pre = sys.argv[sys.argv.index('--from') + 1] if '--from' in sys.argv else 'seed'
+tgt = int(sys.argv[sys.argv.index('--as') + 1]) if '--as' in sys.argv else idx
+src = f'/tmp/{pre}-{prop}-out'
+d = f'/verif/seeded/{prop}-{tgt}'
 os.makedirs(d, exist_ok=True)
 shutil.copy(f'{src}/patch{idx}.diff', d + '/patch.diff')
 shutil.copy(f'{src}/demo{idx}.py', d + '/demo.py')
@@ -25,7 +27,7 @@ meta = dict(property=prop,
             source='fresh sub-agent given only the property text and its own scratch worktree of /repo (nothing from /verif)',
             needs_to_manifest=' '.join(txt.split())[:1500],
             confirmed_by_main_session=dict(
-                how=f'tools/seedrun.py {prop} seeded/{prop}-{idx}/patch.diff --demo seeded/{prop}-{idx}/demo.py --suite  (scratch worktree of /repo at {head}, removed afterwards)',
+                how=f'tools/seedrun.py {prop} seeded/{prop}-{tgt}/patch.diff --demo seeded/{prop}-{tgt}/demo.py --suite  (scratch worktree of /repo at {head}, removed afterwards)',
                 patch_applies=True, demo_on_clean_tree_exit=0, demo_on_changed_tree_exit=1,
                 repository_suite_on_changed_tree='2578 stable passes unchanged'),
             detection=detected)
